@@ -819,7 +819,98 @@ Proof.
     unfold emit_entry. cbn [ae_body ae_next ae_attrs fst].
     change (emit_header (ae_size (AData a n d)) n a ++ d) with (emit_header (ae_size (AData a n d)) n a ++ [] ++ d).
     apply asm_nvar_id; auto.
-    + unfold gpart_of; cbn [v_attrs]. rewrite Wdo. reflexivity.
-    + unfold ae_size, nvar_header_size. cbn [ae_body]. change (zlen (@nil Z)) with 0. lia.
+    unfold gpart_of; cbn [v_attrs]. rewrite Wdo. reflexivity.
   - reflexivity.
 Qed.
+
+Lemma interp_entries_bufs pol table rest off prev k :
+  map v_buf (fst (interp_entries dec16 pol table rest off prev k)) =
+  map v_buf prev ++ map emit_entry rest.
+Proof.
+  revert off prev k; induction rest as [|e r IH]; intros off prev k.
+  - cbn. rewrite app_nil_r. reflexivity.
+  - cbn [interp_entries].
+    pose proof (interp_entry_size pol table e off prev k) as (_ & Eb & _).
+    destruct (interp_entry dec16 pol table e off prev k) as [v k']. cbn [fst] in Eb.
+    rewrite IH. rewrite map_app. cbn [map]. rewrite Eb, <- app_assoc. reflexivity.
+Qed.
+
+Lemma interp_entries_k pol table rest off prev k :
+  snd (interp_entries dec16 pol table rest off prev k) = discovered k rest.
+Proof.
+  revert off prev k; induction rest as [|e r IH]; intros off prev k; [reflexivity|].
+  cbn [interp_entries]. pose proof (interp_entry_k pol table e off prev k) as Ek.
+  destruct (interp_entry dec16 pol table e off prev k) as [v k']. cbn [snd] in Ek. subst k'.
+  rewrite IH. reflexivity.
+Qed.
+
+Lemma first_next_ok_spec pol e r : first_next_ok pol (e :: r) = true ->
+  ATTR (ae_attrs e) nvar_attr_valid = true -> ~ (pol = 255 /\ ae_next e = 0).
+Proof. cbn [first_next_ok]. intros H V. rewrite V in H. cbn [negb orb] in H. lia. Qed.
+
+Lemma interp_entries_asm pol d' table rest off prev k :
+  pol = 0 \/ pol = 255 ->
+  forallb (wf_entry (zlen table)) rest = true ->
+  0 <= off -> off + zlen (emit_entries rest) < 2 ^ 47 ->
+  (off = 0 -> first_next_ok pol rest = true) ->
+  Forall (fun v => asm_nvar pol d' v = Ok v) prev ->
+  Forall (fun v => asm_nvar pol d' v = Ok v) (fst (interp_entries dec16 pol table rest off prev k)).
+Proof.
+  intros Hpol. revert off prev k; induction rest as [|e r IH]; intros off prev k W Ho Hlen Hf Hp; [exact Hp|].
+  cbn [forallb] in W. apply andb_true_iff in W as [We Wr].
+  rewrite zlen_emit_entries_cons in Hlen.
+  pose proof (ae_size_ge e). pose proof (zlen_nonneg (emit_entries r)).
+  cbn [interp_entries].
+  pose proof (asm_interp_entry pol d' table e off prev k Hpol We ltac:(lia)
+                ltac:(intros E0; apply first_next_ok_spec with (r := r); auto)) as A.
+  destruct (interp_entry dec16 pol table e off prev k) as [v k']. cbn [fst] in A.
+  apply IH; auto; try lia.
+  apply Forall_app. split; auto.
+Qed.
+
+Lemma map_out_id {A} (f : A -> outcome A) l : Forall (fun a => f a = Ok a) l -> map_out f l = Ok l.
+Proof.
+  induction 1 as [|a l Ha Hl IH]; [reflexivity|].
+  cbn [map_out]. rewrite Ha. cbn [bind]. rewrite IH. reflexivity.
+Qed.
+
+(* Assemble on the meaning of a well-formed store changes nothing and its buffer is [emit] *)
+Theorem asm_interp pol d' s : wf_store pol s = true ->
+  asm_store enc16 pol (S d') (interp dec16 pol s) = Ok (interp dec16 pol s) /\
+  s_buf (interp dec16 pol s) = emit pol s.
+Proof.
+  intros W. apply wf_store_spec in W as (Hpol & Hlen & We & Htab & Ht & D & Hfn & Hfr).
+  pose proof (zlen_emit pol s Htab Hfr) as Le.
+  pose proof (zlen_nonneg (a_table s)) as Hnt.
+  pose proof (zlen_nonneg (emit_entries (a_entries s))) as Hne.
+  assert (Lee : zlen (emit_entries (a_entries s)) + a_free s + 16 * zlen (a_table s) = store_len s).
+  { unfold store_len. rewrite zlen_emit_entries. unfold nvar_guid_size. lia. }
+  unfold interp.
+  pose proof (interp_entries_bufs pol (a_table s) (a_entries s) 0 [] 0) as Eb.
+  pose proof (interp_entries_k pol (a_table s) (a_entries s) 0 [] 0) as Ek.
+  pose proof (interp_entries_asm pol d' (a_table s) (a_entries s) 0 [] 0 Hpol We ltac:(lia) ltac:(lia)
+                ltac:(auto) (Forall_nil _)) as Ea.
+  destruct (interp_entries dec16 pol (a_table s) (a_entries s) 0 [] 0) as [es k].
+  cbn [fst snd] in *. rewrite D in Ek. subst k.
+  split; [|reflexivity].
+  rewrite asm_store_unfold. cbn [s_entries s_guids s_len s_buf].
+  rewrite map_out_id by exact Ea. cbn [bind].
+  rewrite Eb. cbn [app]. fold (emit_entries (a_entries s)).
+  rewrite zfirstn_all by lia.
+  unfold nvar_guid_size. rewrite Le.
+  rewrite (Z.mod_small (store_len s - 16 * zlen (a_table s))) by lia.
+  replace (store_len s - 16 * zlen (a_table s) - zlen (emit_entries (a_entries s))) with (a_free s) by lia.
+  rewrite Z.mod_small by lia.
+  replace (2 ^ 47 <=? a_free s) with false by lia.
+  reflexivity.
+Qed.
+
+(* parse, then reassemble: the same bytes *)
+Theorem nvar_roundtrip pol d' s : wf_store pol s = true ->
+  exists st, parse_store dec16 pol (emit pol s) = Ok st /\
+             asm_store enc16 pol (S d') st = Ok st /\ s_buf st = emit pol s.
+Proof.
+  intros W. exists (interp dec16 pol s). split; [apply parse_emit; auto|]. apply asm_interp; auto.
+Qed.
+
+End WithCodec.
